@@ -118,6 +118,18 @@ Section Field.
     gen_build_derivative_operator F pi xy D L N c idx = (0, (fz 2 * pi / L) * fz (wavenumber xy D N c idx)).
   Proof. intros Hc. unfold gen_build_derivative_operator. fold (gen_build_wavenumbers xy D N c idx). rewrite wavenumbers_tie by exact Hc. reflexivity. Qed.
 
+  (* make_grid (exponax/_utils.py): coordinate c at grid index idx is j L / N with j the index along the array axis of component c
+     (N + 1 points when full, the last one being L), shifted by L / 2 when zero_centered *)
+  Lemma make_grid_tie full zero_centered xy D (L : F) N c idx :
+    gen_make_grid F full zero_centered xy D L N c idx =
+    (let j := nth (mesh_axis xy D c) idx 0%Z in
+     let x := fz (fst (grid_num full N j)) * L / fz (snd (grid_num full N j)) in
+     if zero_centered then x - L / fz 2 else x).
+  Proof.
+    unfold gen_make_grid, grid_num, fst, snd. cbv zeta. replace (N + 1 - 1)%Z with N by lia.
+    destruct full, zero_centered; reflexivity.
+  Qed.
+
   (* per-axis factor of the ij scaling array and its count of halvings *)
   Definition axis_halving (D : nat) (N dr dother : Z) (idx : list Z) (c : nat) : Z :=
     let last := (c =? D - 1)%nat in
